@@ -383,7 +383,138 @@ def adapter_c02_script(stage, prop, h, r, unlisted, outdir):
     return Outcome(False, path, "the real pipeline prints the expected values for the programs of this class")
 
 
-ADAPTERS = {"c02_script": adapter_c02_script, "c07_text": adapter_c07_text, "c09_script": adapter_c09_script, "c07_local_range": adapter_c07_local_range, "c10_layout": adapter_c10_layout, "c11_align": adapter_c11_align, "c13_find": adapter_c13_find, "c13_replace": adapter_c13_replace}
+# ---------------------------------------------------------------------------
+# C06: instance (operator class, operand kinds) -> programs that route literals of those kinds
+# through function parameters (typed dynamic by the static checker) into the operator
+_C06_LITS = {0: ["1", "0", "2.5", "minus 1", "1000000000000000000000"], 1: ['"ab"', '""'], 2: ["true", "false"], 3: ["null"],
+             4: ["[]"], 5: ["[1]"]}
+_C06_OPS = {0: ["and", "or"], 1: ["add"], 2: ["minus", "times"], 3: ["divide", "mod"], 4: ["na", "pass", "small pass"]}
+
+
+def c06_programs(name):
+    parts = name.split("_")
+    if parts[0] == "binary":
+        oc, lk, rk = int(parts[1][1:]), int(parts[2]), int(parts[3])
+        for op in _C06_OPS[oc]:
+            for l in _C06_LITS[lk]:
+                for r in _C06_LITS[rk]:
+                    yield "do f(a, b) start\n  return a %s b\nend\nshout(f(%s, %s))\n" % (op, l, r)
+    elif parts[0] == "unary":
+        for op in ("not", "minus"):
+            for l in _C06_LITS[int(parts[1])]:
+                yield "do f(a) start\n  return %s a\nend\nshout(f(%s))\n" % (op, l)
+    elif parts[0] == "index":
+        for a in _C06_LITS[int(parts[1])]:
+            for i in _C06_LITS[int(parts[2])]:
+                yield "do f(a, i) start\n  return a[i]\nend\nshout(f(%s, %s))\n" % (a, i)
+    elif parts[0] == "member":
+        # member_<field>_a<n>_r<k>[_<k0>[_<k1>]]
+        import itertools, re as _re
+        m = _re.match(r"member_(\w+?)_a(\d)_r(\d)((?:_\d)*)$", name)
+        field, nargs, rk = m.group(1), int(m.group(2)), int(m.group(3))
+        ks = [int(x) for x in m.group(4).split("_") if x]
+        params = ["b", "c"][:nargs]
+        for recv in _C06_LITS[rk][:2]:
+            for lits in itertools.product(*[_C06_LITS[k][:2] for k in ks]):
+                yield "do f(%s) start\n  return a.%s(%s)\nend\nshout(f(%s))\n" % (
+                    ", ".join(["a"] + params), field, ", ".join(params), ", ".join([recv] + list(lits)))
+    elif parts[0] == "cond":
+        for kw in ("if to say", "jasi"):
+            for l in _C06_LITS[int(parts[1])]:
+                yield "do f(a) start\n  %s (a) start\n    return 1\n  end\n  return 0\nend\nshout(f(%s))\n" % (kw, l)
+
+
+def adapter_c06_script(stage, prop, h, r, unlisted, outdir):
+    tried = []
+    for script in c06_programs(h.name):
+        for rel in (False, True):
+            rc, out = run_script(stage, script, mode="analysis", release=rel, timeout=30)
+            rejected = "DIAG:resolve:Error" in out or "DIAG:parse:Error" in out
+            tried.append({"script": script, "release": rel, "rc": rc, "rejected_statically": rejected, "tail": out[-300:]})
+            if crashed(rc) and not rejected:
+                path = _save(outdir, prop, h, {"kind": "script", "script": script, "expect": "crash", "runs": tried[-2:]})
+                return Outcome(True, path, "accepted program %r crashes the interpreter (rc=%d, %s build): %s" % (
+                    script, rc, "release" if rel else "dev", out.strip()[-160:]))
+    path = _save(outdir, prop, h, {"kind": "script", "script": tried[0]["script"] if tried else "", "expect": "crash", "runs": tried[:40]})
+    return Outcome(False, path, "no program of this class crashes the real interpreter")
+
+
+# ---------------------------------------------------------------------------
+# C01: step class -> programs with the output the documentation gives them
+def _c01_num(op, pairs):
+    return [("shout(%s %s %s)\n" % (a, op, b), [w]) for a, b, w in pairs]
+
+
+_C01_SCRIPTS = {
+    "sem_number_add": _c01_num("add", [("1", "2", "3"), ("0.5", "0.25", "0.75"), ("10", "0", "10"), ("2", "minus 5", "-3")]),
+    "sem_number_minus": _c01_num("minus", [("5", "2", "3"), ("2", "5", "-3"), ("0.75", "0.25", "0.5"), ("1", "0", "1")]),
+    "sem_number_times": _c01_num("times", [("3", "4", "12"), ("0.5", "4", "2"), ("7", "0", "0"), ("7", "1", "7")]),
+    "sem_number_divide": _c01_num("divide", [("12", "4", "3"), ("1", "4", "0.25"), ("9", "1", "9"), ("2", "8", "0.25")])
+        + [("shout(1 divide 0)\nshout(2)\n", "ERR:Division by zero"), ("make z get 0\nshout(0 divide z)\n", "ERR:Division by zero")],
+    "sem_number_mod": _c01_num("mod", [("7", "3", "1"), ("8", "4", "0"), ("2", "5", "2")])
+        + [("shout(1 mod 0)\nshout(2)\n", "ERR:Division by zero")],
+    "sem_number_na": _c01_num("na", [("1", "1", "true"), ("1", "2", "false"), ("2", "1", "false"), ("0", "0", "true"), ("0.5", "0.25", "false")]),
+    "sem_number_na_inf": [("make a get 10\nmake i get 0\njasi (i small pass 400) start\n  a get a times 10\n  i get i add 1\nend\nshout(a na a)\nmake b get a\nshout(b na a)\nshout(a na 1)\n", ["true", "true", "false"])],
+    "sem_number_pass": _c01_num("pass", [("2", "1", "true"), ("1", "2", "false"), ("1", "1", "false"), ("0", "minus 1", "true")]),
+    "sem_number_small_pass": _c01_num("small pass", [("1", "2", "true"), ("2", "1", "false"), ("1", "1", "false"), ("minus 1", "0", "true")]),
+    "sem_and": [("do t(x) start\n  shout(x)\n  return true\nend\nshout(false and t(1))\nshout(true and t(2))\nshout(null and t(3))\n", ["false", "2", "true", "false"]),
+                ("shout(true and false)\nshout(true and null)\nshout(true and true)\nshout(false and true)\n", ["false", "false", "true", "false"])],
+    "sem_or": [("do t(x) start\n  shout(x)\n  return false\nend\nshout(true or t(1))\nshout(false or t(2))\nshout(null or t(3))\n", ["true", "2", "false", "3", "false"]),
+               ("shout(false or true)\nshout(false or null)\nshout(null or true)\nshout(false or false)\n", ["true", "false", "true", "false"])],
+    "sem_compare_0": [("shout(true na true)\nshout(true na false)\nshout(false na false)\nshout(true pass false)\nshout(false pass true)\nshout(false small pass true)\nshout(true small pass false)\nshout(true pass true)\n",
+                       ["true", "false", "true", "true", "false", "true", "false", "false"])],
+    "sem_compare_1": [("shout(null na null)\nshout(null pass null)\nshout(null small pass null)\n", ["true", "false", "false"])],
+    "sem_compare_2": [("shout(null na 1)\nshout(null pass 1)\nshout(null small pass 1)\nshout(null na \"a\")\nshout(null na false)\nshout(null small pass true)\n", ["false"] * 6)],
+    "sem_compare_3": [("shout(1 na null)\nshout(1 pass null)\nshout(1 small pass null)\nshout(\"a\" na null)\nshout(false na null)\nshout(true pass null)\n", ["false"] * 6)],
+    "sem_string_add": [('shout("ab" add "cd")\nshout("" add "x")\nshout("x" add "")\nmake a get "p" add "q"\nshout(a add a)\n', ["abcd", "x", "x", "pqpq"])],
+    "sem_string_na": [('shout("ab" na "ab")\nshout("ab" na "ac")\nshout("ab" na "bb")\nshout("" na "")\n', ["true", "false", "false", "true"])],
+    "sem_string_pass": [('shout("b" pass "a")\nshout("a" pass "b")\nshout("ab" pass "aa")\nshout("aa" pass "ab")\nshout("a" pass "a")\n', ["true", "false", "true", "false", "false"])],
+    "sem_string_small_pass": [('shout("a" small pass "b")\nshout("b" small pass "a")\nshout("aa" small pass "ab")\nshout("ab" small pass "aa")\nshout("a" small pass "a")\n', ["true", "false", "true", "false", "false"])],
+    "sem_unary_0": [("shout(not true)\nshout(not false)\n", ["false", "true"])],
+    "sem_unary_1": [("shout(not null)\n", ["true"])],
+    "sem_unary_2": [("make a get 5\nshout(minus a)\nshout(minus (minus a))\nshout(minus 0.5)\n", ["-5", "5", "-0.5"])],
+    "sem_index_empty": [("make a get []\nshout(a[0])\n", "ERR:Index out of bounds"), ("make a get []\nshout(a[0.5])\n", "ERR:Invalid index"),
+                        ("make a get []\nshout(a[minus 1])\n", "ERR:Index out of bounds"), ("make a get []\nshout(a[3])\n", "ERR:Index out of bounds"),
+                        ("do f(a, i) start\n  return a[i]\nend\nshout(f([], \"x\"))\n", "ERR:Invalid index"),
+                        ("do f(a, i) start\n  return a[i]\nend\nshout(f([], null))\n", "ERR:Invalid index")],
+    "sem_if": [("if to say (true) start\n  shout(1)\nend\nif to say (false) start\n  shout(2)\nend\nif to say (null) start\n  shout(3)\nend\nshout(4)\n", ["1", "4"]),
+               ("if to say (false) start\n  shout(1)\nend if not so start\n  shout(2)\nend\nif to say (true) start\n  shout(3)\nend if not so start\n  shout(4)\nend\nif to say (null) start\n  shout(5)\nend if not so start\n  shout(6)\nend\n", ["2", "3", "6"]),
+               ("do f(c) start\n  if to say (c) start\n    return 1\n  end if not so start\n    return 2\n  end\n  return 3\nend\nshout(f(true))\nshout(f(false))\nshout(f(null))\n", ["1", "2", "2"]),
+               ("make i get 0\njasi (i small pass 3) start\n  i get i add 1\n  if to say (i na 2) start\n    next\n  end\n  shout(i)\nend\nmake j get 0\njasi (true) start\n  j get j add 1\n  if to say (j na 2) start\n    comot\n  end if not so start\n    shout(j)\n  end\nend\n", ["1", "3", "1"])],
+    "sem_loop": [("make i get 0\njasi (i small pass 3) start\n  shout(i)\n  i get i add 1\nend\nshout(i)\n", ["0", "1", "2", "3"]),
+                 ("make i get 0\njasi (true) start\n  i get i add 1\n  if to say (i na 3) start\n    comot\n  end\n  shout(i)\nend\nshout(i)\n", ["1", "2", "3"]),
+                 ("make i get 0\njasi (i small pass 4) start\n  i get i add 1\n  if to say (i na 2) start\n    next\n  end\n  shout(i)\nend\n", ["1", "3", "4"]),
+                 ("do f() start\n  make i get 0\n  jasi (true) start\n    i get i add 1\n    if to say (i na 2) start\n      return i times 10\n    end\n  end\n  return 0\nend\nshout(f())\n", ["20"]),
+                 ("jasi (false) start\n  shout(1)\nend\njasi (null) start\n  shout(2)\nend\nshout(3)\n", ["3"])],
+}
+
+
+def adapter_c01_script(stage, prop, h, r, unlisted, outdir):
+    key = h.name
+    while key and key not in _C01_SCRIPTS:
+        key = key.rsplit("_", 1)[0] if "_" in key else ""
+    tried = []
+    for script, want in _C01_SCRIPTS.get(key, []) + _C01_SCRIPTS.get(h.name + "_inf", []):
+        for rel in (False, True):
+            for mode in ("analysis", "plain"):
+                rc, out = run_script(stage, script, mode=mode, release=rel, timeout=30)
+                got = [l[4:] for l in out.splitlines() if l.startswith("OUT:")]
+                if isinstance(want, str):   # "ERR:<kind>": the run must end with that reported runtime error, without crashing
+                    bad = crashed(rc) or (want[4:] not in out)
+                else:
+                    bad = crashed(rc) or got != want
+                tried.append({"script": script, "release": rel, "mode": mode, "rc": rc, "got": got, "want": want, "tail": out[-200:]})
+                if bad:
+                    path = _save(outdir, prop, h, {"kind": "script", "script": script,
+                                                   "expect_out": want if not isinstance(want, str) else None,
+                                                   "expect_text": want[4:] if isinstance(want, str) else None, "runs": tried[-2:]})
+                    return Outcome(True, path, "program %r: documented result %r, got %r (rc=%d, %s build)" % (
+                        script, want, got or out.strip()[-120:], rc, "release" if rel else "dev"))
+    path = _save(outdir, prop, h, {"kind": "script", "script": "", "runs": tried[:20]})
+    return Outcome(False, path, "the programs of this class print the documented results on the real interpreter")
+
+
+ADAPTERS = {"c01_script": adapter_c01_script, "c02_script": adapter_c02_script, "c06_script": adapter_c06_script, "c07_text": adapter_c07_text, "c09_script": adapter_c09_script, "c07_local_range": adapter_c07_local_range, "c10_layout": adapter_c10_layout, "c11_align": adapter_c11_align, "c13_find": adapter_c13_find, "c13_replace": adapter_c13_replace}
 
 
 def replay_file(art, path):
@@ -414,6 +545,8 @@ def replay_file(art, path):
                     got = [l[4:] for l in out.splitlines() if l.startswith("OUT:")]
                     if got != art["expect_out"]:
                         worst = 1
+                if art.get("expect_text") is not None and (crashed(rc) or art["expect_text"] not in out):
+                    worst = 1
             if worst:
                 print("VIOLATION property=%s replay=%s" % (art["property"], path))
             return worst
